@@ -153,16 +153,29 @@ def tsan(drv, seed, scale=0.03):
     return extra, viol, inc
 
 
-def cachegrind_scaling(drv, n_small=4000, factor=4, step=1, deep=False):
+def cachegrind_scaling(drv, n_small=4000, factor=4, step=1, deep=False, builds=("rel-plain",)):
+    """Run the instruction-count scaling check on each of `builds` (rel-plain: default feature
+    set without hooks; rel-ms: macro_sep configuration, hooks compiled in but never armed)."""
+    extra, viol, inc = {}, [], []
+    for b in builds:
+        e, v, i = _cachegrind_scaling_one(drv, b, n_small, factor, step, deep)
+        for k, val in e.items():
+            extra["%s[%s]" % (k, b)] = val
+        viol += v
+        inc += i
+    return extra, viol, inc
+
+
+def _cachegrind_scaling_one(drv, build_name, n_small, factor, step, deep):
     """Instruction counts of the plain release build on p(n) and p(factor*n): deterministic and
     independent of machine load. Super-linear growth is a violation."""
     t0 = time.time()
     extra, viol, inc = {}, [], []
-    bins = drv.build_many(["rel-plain", "rel"])
-    if not bins.get("rel-plain") or not bins.get("rel"):
+    bins = drv.build_many([build_name, "rel"])
+    if not bins.get(build_name) or not bins.get("rel"):
         return extra, viol, ["harness build failed"]
-    exe = bins["rel-plain"]
-    work = os.path.join(drv.OUT, "cg")
+    exe = bins[build_name]
+    work = os.path.join(drv.OUT, "cg-" + build_name)
     os.makedirs(work, exist_ok=True)
     p = subprocess.run([bins["rel"], "family"], stdout=subprocess.PIPE, text=True, env=drv.ENV)
     try:
@@ -214,7 +227,7 @@ def cachegrind_scaling(drv, n_small=4000, factor=4, step=1, deep=False):
             worst = max(worst, ratio / growth)
             table.append({"family": name, "bytes": [s1, s2], "instructions": [a, b], "ratio": round(ratio, 2)})
             if ratio > growth * 1.5:
-                viol.append(("rel-plain", _viol("C01.superlinear|instructions|family:%s" % name, "C01.superlinear",
+                viol.append((build_name, _viol("C01.superlinear|instructions|family:%s" % name, "C01.superlinear",
                                                 "executed instructions grew %.1fx when the input grew %.1fx (family %s, %d -> %d bytes)" % (ratio, growth, name, s1, s2),
                                                 ["family %s" % name])))
     extra["instruction_scaling"] = {"tool": "valgrind --tool=cachegrind (I refs, startup baseline subtracted)", "families": len(table),
